@@ -270,26 +270,21 @@ theorem expects_of_none (i : Input) (h : WF i) (hn : (loadCategories i.categorie
     key "mark" rfl (by simpa [Cats.get] using hm), key "component" rfl (by simpa [Cats.get] using hc)]
   rfl
 
-/-- the user's features have at most one GDEF table block -/
-def oneBlock (i : Input) : Prop := i.blocks.length ≤ 1
-
-theorem todo_of_oneBlock (i : Input) (h : oneBlock i) :
+/-- the to-do pruning regards every GDEF block of the user's features -/
+theorem todo_eq (i : Input) :
     gdefTodo i.blocks = (!userAnyClassDef i, !userAnyCarets i) := by
-  unfold oneBlock at h
   unfold gdefTodo userAnyClassDef userAnyCarets
-  match hb : i.blocks with
-  | [] => simp
-  | [b] => simp
-  | _ :: _ :: _ => rw [hb] at h; simp at h
+  cases i.blocks with
+  | nil => simp
+  | cons b bs => rfl
 
-/-- **C18_classes_partial** (hypothesis `oneBlock`; without it the statement is false of the code, see the
-`example` after `C18_user_left_alone_partial` — finding "gdef-statement-in-later-user-block-ignored"): the emitted GlyphClassDef lists, per class, exactly the exported glyphs whose
+/-- **C18_classes** (any number of user GDEF blocks; ufo2ft's repair of "gdef-statement-in-later-user-block-ignored"): the emitted GlyphClassDef lists, per class, exactly the exported glyphs whose
 `public.openTypeCategories` value is that class, strictly sorted; it is emitted whenever some exported
-glyph has a class; nothing is emitted when the user's GDEF block defines the classes. -/
-theorem C18_classes_partial (i : Input) (h : WF i) (hb : oneBlock i) :
+glyph has a class; nothing is emitted when any of the user's GDEF blocks defines the classes. -/
+theorem C18_classes (i : Input) (h : WF i) :
     holdsClassesFea i (gdefWrite i.quant i.glyphs i.categories i.blocks).classDef = true := by
   unfold holdsClassesFea gdefWrite
-  simp only [todo_of_oneBlock i hb]
+  simp only [todo_eq i]
   cases hu : userAnyClassDef i with
   | true => simp
   | false =>
@@ -397,20 +392,34 @@ theorem C18_classes_disjoint (i : Input) (h : WF i) (g : String) :
     simp only [modelClassDef]
     refine ⟨?_, ?_, ?_⟩ <;> intro e <;> exact absurd e (this _)
 
-/-- **C18_user_left_alone_partial** (hypothesis `oneBlock`; the `example` below shows it is needed): when the user's (single) GDEF block has a GlyphClassDef, resp. a
+/-- **C18_user_left_alone**: when any of the user's GDEF blocks has a GlyphClassDef, resp. a
 LigatureCaretBy* statement, the writer emits none of its own -/
-theorem C18_user_left_alone_partial (i : Input) (hb : oneBlock i) :
+theorem C18_user_left_alone (i : Input) :
     let o := gdefWrite i.quant i.glyphs i.categories i.blocks
     (userAnyClassDef i = true → o.classDef = none) ∧ (userAnyCarets i = true → o.carets = none) := by
-  simp only [gdefWrite, todo_of_oneBlock i hb]
+  simp only [gdefWrite, todo_eq i]
   constructor <;> intro h <;> simp [h]
 
-/-- without the one-block hypothesis the statement is false: the code inspects the first GDEF block
-only (`ast.findTable`), so a GlyphClassDef in a second block does not stop the writer -/
-example : ∃ i : Input, userAnyClassDef i = true ∧
-    (gdefWrite i.quant i.glyphs i.categories i.blocks).classDef ≠ none :=
-  ⟨{ glyphs := [⟨"a", []⟩], categories := [("a", "base")], blocks := [⟨false, false⟩, ⟨true, false⟩],
-     quant := none, dir := { anyLtrCp := false, ltr := none }, cursTodo := true }, by decide⟩
+/-- the first-block scan agrees with the present one when there is at most one block -/
+theorem gdefTodoOld_eq (blocks : List UserBlock) (h : blocks.length ≤ 1) : gdefTodoOld blocks = gdefTodo blocks := by
+  match blocks, h with
+  | [], _ => rfl
+  | [b], _ => simp [gdefTodoOld, gdefTodo]
+
+/-- LABELLED COUNTEREXAMPLE about the OLD function (`gdefTodoOld`, not part of `run`): before the repair the code
+inspected the first GDEF block only, so a GlyphClassDef (or caret statement) in a second block did not stop the
+writer — the shape "gdef-statement-in-later-user-block-ignored" -/
+example : let blocks : List UserBlock := [⟨false, false⟩, ⟨true, true⟩]
+    gdefTodoOld blocks = (true, true) ∧ gdefTodo blocks = (false, false) := by decide
+
+/-- two blocks, the statements in the second one: nothing is generated -/
+def exTwoBlocks : Input :=
+  { glyphs := [⟨"a", []⟩, ⟨"f_i", [⟨some "caret_1", 250, 0⟩]⟩], categories := [("a", "base")],
+    blocks := [⟨false, false⟩, ⟨true, true⟩], quant := none, dir := { anyLtrCp := false, ltr := none }, cursTodo := true }
+
+example : (gdefWrite exTwoBlocks.quant exTwoBlocks.glyphs exTwoBlocks.categories exTwoBlocks.blocks).classDef = none ∧
+    (gdefWrite exTwoBlocks.quant exTwoBlocks.glyphs exTwoBlocks.categories exTwoBlocks.blocks).carets = none := by
+  simp [gdefWrite, gdefTodo, exTwoBlocks]
 
 
 /-! ### ligature carets -/
@@ -542,15 +551,15 @@ theorem find?_name_of_mem (l : List GlyphIn) (h : (l.map (·.name)).Nodup) (g : 
 theorem findGlyph_of_mem (i : Input) (h : (glyphNames i).Nodup) (g : GlyphIn) (hg : g ∈ i.glyphs) :
     findGlyph i g.name = some g := find?_name_of_mem i.glyphs h g hg
 
-/-- **C18_carets_partial** (hypothesis `oneBlock` only, as for the classes): for every exported glyph with caret
+/-- **C18_carets** (no hypothesis beyond well-formed UFO data): for every exported glyph with caret
 anchors one LigatureCaretByPos statement is emitted whose positions are in increasing order and are exactly
 otRound(quantize(x)) of ALL its `caret_*` anchors and otRound(quantize(y)) of ALL its `vcaret_*` anchors — also when
 several caret anchors share a name (ufo2ft's repair of "same-named-caret-anchors-collapse-to-first"); no statement
-for other glyphs; none at all when the user's GDEF block has caret statements. -/
-theorem C18_carets_partial (i : Input) (h : WF i) (hb : oneBlock i) :
+for other glyphs; none at all when any of the user's GDEF blocks has caret statements. -/
+theorem C18_carets (i : Input) (h : WF i) :
     holdsCaretsFea i (gdefWrite i.quant i.glyphs i.categories i.blocks).carets = true := by
   unfold holdsCaretsFea gdefWrite
-  simp only [todo_of_oneBlock i hb]
+  simp only [todo_eq i]
   cases hu : userAnyCarets i with
   | true => simp
   | false =>
@@ -1098,14 +1107,13 @@ theorem C18_curs_flag (i : Input) (e g : String) :
   rw [← C18_ltr_extras]
   cases isRTLName e <;> cases isLTRName e <;> simp
 
-/-- **C18_all_partial** (full statement: the same without `oneBlock`; it is false of the code on exactly that
-input shape, shown by the `example` after `C18_user_left_alone_partial`): the whole observation of one
-build.  For well-formed UFO data (unique dictionary keys and glyph names) and at most one user GDEF block the
-writers' output satisfies the class, caret and cursive predicates. -/
-theorem C18_all_partial (i : Input) (h : WF i) (hb : oneBlock i) :
+/-- **C18_all**: the whole observation of one build.  For well-formed UFO data (unique dictionary keys and glyph
+names) — any number of user GDEF blocks, any caret anchor names — the writers' output satisfies the class, caret
+and cursive predicates. -/
+theorem C18_all (i : Input) (h : WF i) :
     holdsClassesFea i (run i).gdef.classDef = true ∧ holdsCaretsFea i (run i).gdef.carets = true ∧
       holdsCurs i (run i).curs = true :=
-  ⟨C18_classes_partial i h hb, C18_carets_partial i h hb, C18_curs i h⟩
+  ⟨C18_classes i h, C18_carets i h, C18_curs i h⟩
 
 /-! ### non-vacuity: a concrete mixed-direction font meets every hypothesis and exercises every part -/
 
@@ -1120,7 +1128,6 @@ def exInput : Input :=
     dir := { anyLtrCp := true, ltr := some ["a"], extras := [("a", "a.alt"), ("a.alt", "x")] }, cursTodo := true }
 
 example : WF exInput := ⟨by decide, by decide⟩
-example : oneBlock exInput := by simp [oneBlock, exInput]
 
 /-- the input is not trivial: it has a class-bearing glyph, a glyph with three caret anchors (two of
 which coincide after rounding) and two cursive pairs, one of them with an explicit direction -/
@@ -1337,17 +1344,17 @@ theorem runSeq_eq (w : Writers) (is : List Input) :
 theorem runSeq_length (w : Writers) (is : List Input) : (runSeq w is).length = is.length := by
   rw [runSeq_eq, length_map]
 
-/-- **C18_seq** (hypotheses as in `C18_all_partial`, for every font of the sequence): whatever fonts were
+/-- **C18_seq** (hypothesis as in `C18_all`, for every font of the sequence): whatever fonts were
 compiled before with the same writer instances, each font's output satisfies the class, caret and cursive
 predicates with respect to ITS OWN UFO data -/
 theorem C18_seq (w : Writers) (is : List Input)
-    (h : ∀ i ∈ is, WF i ∧ oneBlock i) (k : Nat) (hk : k < is.length) :
+    (h : ∀ i ∈ is, WF i) (k : Nat) (hk : k < is.length) :
     holdsClassesFea { is[k] with quant := w.quant } ((runSeq w is)[k]'(by rw [runSeq_length]; exact hk)).gdef.classDef = true ∧
     holdsCaretsFea { is[k] with quant := w.quant } ((runSeq w is)[k]'(by rw [runSeq_length]; exact hk)).gdef.carets = true ∧
     holdsCurs { is[k] with quant := w.quant } ((runSeq w is)[k]'(by rw [runSeq_length]; exact hk)).curs = true := by
   simp only [runSeq_eq, getElem_map]
-  obtain ⟨hw, hb⟩ := h is[k] (getElem_mem hk)
-  exact C18_all_partial { is[k] with quant := w.quant } ⟨hw.keys, hw.names⟩ hb
+  have hw := h is[k] (getElem_mem hk)
+  exact C18_all { is[k] with quant := w.quant } ⟨hw.keys, hw.names⟩
 
 /-- the output for a font does not depend on the fonts compiled before it -/
 theorem C18_seq_independent (w : Writers) (pre pre' : List Input) (i : Input) :
